@@ -165,7 +165,7 @@ def check(cx):
 
     # ---- R1.9 rank sets subset of members
     r9 = cx.rule('R1.9', 'rank sets name members only (imported)', floor=2, kind='dependency')
-    depends(cx, r9, 'C04', ('R4.1', 'R4.4'), 'rank sets kept in step with the member map', only=r'writes-Channel\.users|^Channel|^ChannelModes')
+    depends(cx, r9, 'C04', ('R4.1', 'R4.3', 'R4.4'), 'rank sets kept in step with the member map', only=r'writes-Channel\.users|^Channel|^ChannelModes')
     depends(cx, r9, 'C16', ('R16.1', 'R16.3'), 'rank sets of a new channel name members only',
             only=r'modes-not-cleaned|new_from_modes_and_cleanup\|fields|new_for_channel\|shape|new_on_user_join\|shape')
 
